@@ -137,6 +137,14 @@ theorem stateWrapperGen_eq (w : PWrapper) : stateWrapperGen sha md5 w = stateWra
     simp [stateWrapperGen, Hsrc.pythonNodeState, Hsrc.pythonNodeLoadUnwraps, pnTree, pnCond, pnRes, stateWrapper,
       hashValueGen_eq, hv]
 
+/-- the `NodeInfo` of a dependency argument is wired as the hand model says (task identified by its module path) -/
+theorem depNodeInfoGen_eq (s : ArgSite) : nodeInfoGen Hsrc.depNodeInfo s = nodeInfoOfArg s := by
+  simp [nodeInfoGen, Hsrc.depNodeInfo, niLookup, niStr, niPath, niTree, nodeInfoOfArg]
+
+/-- … and so is the `NodeInfo` of a product argument -/
+theorem prodNodeInfoGen_eq (s : ArgSite) : nodeInfoGen Hsrc.prodNodeInfo s = nodeInfoOfArg s := by
+  simp [nodeInfoGen, Hsrc.prodNodeInfo, niLookup, niStr, niPath, niTree, nodeInfoOfArg]
+
 /-- what the model's world abstraction presupposes about `_get_state` -/
 theorem getState_interface :
     Hsrc.getStateStatCall = "stat" ∧ Hsrc.getStateKeyAttr = "st_mtime" ∧
